@@ -8,5 +8,5 @@ git -C /repo diff --quiet || { echo "/repo dirty, refusing"; exit 2; }
 git -C /repo apply "$D/patch.diff" || { echo "APPLY-FAILED $D"; exit 2; }
 IDS=$(echo "$@" | tr ' ' ',')
 ( cd "$V/engine" && PATH=/opt/veriftools/go1.26.8/bin:$PATH GOTOOLCHAIN=local GOFLAGS=-mod=mod GOPROXY=off GOSUMDB=off go build -o junocheck . )
-"$V/engine/junocheck" -prop "$IDS" -verif /tmp/seeded_scratch_verif 2>&1 | grep -v "^KNOWN-FINDING" | grep "VIOLATION\|UNDECIDED\|BROKEN\|SUMMARY" | cut -c1-400
+cp "$V/known_findings.json" /tmp/seeded_scratch_verif/ 2>/dev/null; "$V/engine/junocheck" -prop "$IDS" -verif /tmp/seeded_scratch_verif 2>&1 | grep -v "^KNOWN-FINDING" | grep "VIOLATION\|UNDECIDED\|BROKEN\|SUMMARY" | cut -c1-400
 git -C /repo checkout -- . && git -C /repo clean -fdq
